@@ -192,6 +192,13 @@ func main() {
 		return &hydrapb.FilterGroup{Logic: hydrapb.FilterLogic_AND, Filters: []*hydrapb.TreasureFilter{{
 			BytesFieldPath: &p, Operator: hydrapb.Relational_EQUAL, CompareValue: &hydrapb.TreasureFilter_StringVal{StringVal: state}}}}
 	}
+	// selection filter of the Cap-bearing shift: CONTAINS is not bucket-eligible, so the request does
+	// not go through GetOrBuildBucket -> beaconKey.CloneUnorderedTreasures, which holds the key
+	// beacon's write lock while taking every record guard and deadlocks against any SaveFunction
+	// (second inversion of the known finding deadlock_index_lock_vs_record_guard)
+	sPath := "s"
+	doneFilter := &hydrapb.FilterGroup{Logic: hydrapb.FilterLogic_AND, Filters: []*hydrapb.TreasureFilter{{
+		BytesFieldPath: &sPath, Operator: hydrapb.Relational_CONTAINS, CompareValue: &hydrapb.TreasureFilter_StringVal{StringVal: "don"}}}}
 	if *phase == "B" {
 		for w := 0; w < 2; w++ {
 			spawn("set", w, func(rng *common.Rng) { set(key(rng.Intn(*nkeys))); atomic.AddInt64(&writes, 1) })
@@ -217,7 +224,7 @@ func main() {
 		// Cap-bearing shift: take finished records off the key index
 		spawn("capshift", 0, func(rng *common.Rng) {
 			r, err := gw.ShiftMatchingTreasures(ctx, &hydrapb.ShiftMatchingTreasuresRequest{IslandID: 1, SwampName: swampName,
-				IndexType: hydrapb.IndexType_KEY, OrderType: hydrapb.OrderType_ASC, HowMany: 2, Filters: capFilter("done"),
+				IndexType: hydrapb.IndexType_KEY, OrderType: hydrapb.OrderType_ASC, HowMany: 2, Filters: doneFilter,
 				Cap: &hydrapb.Cap{Filter: capFilter("claimed"), MaxMatching: 100}})
 			if err != nil {
 				say("ERR CapShift %v", err)
